@@ -123,8 +123,24 @@ def run(chk, orch):
                     orch.submit(0, "scenarios:pipeline", common.job_args(wls[act["wl"]]["spec"], o, common.GOLDEN_CELL),
                                 tag=("g", gk))
                     gold_keys[gk] = None
+        # second system: the index / BED / alignment caches of the aligner path, driven function by function with stub artefacts
+        nk = 64 if quick else 256
+        cfn = {}
+        for k in range(nk):
+            na = chk.rng.choice([2, 2, 3, 4, 6, 8])
+            personas = [{"ref": chk.rng.choice([0, 0, 1, 2]), "data_type": chk.rng.choice(["nanopore", "nanopore", "pacbio_ccs", "assembly"]),
+                         "genedb": chk.rng.choice([0, 0, 1]), "fastqs": chk.rng.sample(range(4), chk.rng.choice([1, 2]))} for _ in range(na)]
+            sched = {"policy": chk.rng.choice(POLICIES), "seed": chk.rng.randrange(1 << 20), "pct_d": chk.rng.choice([1, 2, 3]),
+                     "horizon": chk.rng.choice([40, 80, 160])}
+            a = {"personas": personas, "sched": sched}
+            orch.submit(0, "scenarios:cache_functions", a, tag=("k", k), timeout=120)
+            cfn[k] = a
         results = {}
+        kres = {}
         for jid, tag, r in orch.results():
+            if r.get("ok") and tag[0] == "k":
+                kres[tag[1]] = r["res"]
+                continue
             if not r.get("ok"):
                 chk.harness_error(r.get("err"))
                 continue
@@ -133,6 +149,29 @@ def run(chk, orch):
                 chk.count_run(r["res"])
             else:
                 results[tag[1]] = r["res"]
+        for k, res in sorted(kres.items()):
+            a = cfn[k]
+            chk.runs += 1
+            chk.events_simulated += res.get("events", 0)
+            chk.evaluations += 1
+            chk.distinct.add(res["trace_sha"])
+            chk.interleavings.add(res["trace_sha"])
+            chk.faults["concurrent_peer"] += len(a["personas"]) - 1
+            chk.probes["family_cache_functions"] += 1
+            if res.get("harness_error"):
+                chk.harness_error(res["harness_error"])
+                continue
+            probs = [p for ps in res["actors"] for p in ps]
+            if res.get("cache_malformed"):
+                probs.append("cache files malformed at the end: %s" % res["cache_malformed"])
+            if probs:
+                kind = "actor raised" if any("actor raised" in p or "no result" in p for p in probs) else \
+                    ("malformed" if "malformed" in probs[-1] else "foreign artefact")
+                m = re.findall(r"(\w+Error)", " ".join(probs))
+                chk.violation("k:cachefn", {"family": "cache_functions", "kind": kind, "error": m[-1] if m else ""},
+                              " || ".join(p[-300:] for p in probs[:3]),
+                              {"engine": "actors", "oracle": "module:checks.c20", "kind": "K", "args": dict(a, sched={"picks": res.get("picks")}),
+                               "expected": {"trace_sha256": res["trace_sha"]}})
         for k, res in sorted(results.items()):
             wls, steps, sched, fam, a = sessions[k]
             chk.runs += 1
@@ -168,6 +207,14 @@ def run(chk, orch):
 
 
 def replay(doc, orch):
+    if doc.get("kind") == "K":
+        jid = orch.submit(0, "scenarios:cache_functions", doc["args"], timeout=120)
+        r = orch.run_all()[jid][1]
+        if not r.get("ok"):
+            return False, "harness: %s" % r.get("err")
+        probs = [p for ps in r["res"]["actors"] for p in ps] + (["malformed: %s" % r["res"]["cache_malformed"]] if r["res"].get("cache_malformed") else [])
+        return bool(probs), "trace sha256 recorded %s replayed %s\n%s" % (
+            str((doc.get("expected") or {}).get("trace_sha256"))[:16], r["res"]["trace_sha"][:16], "\n".join(probs))
     a = dict(doc["session"])
     # replay the recorded picks (pure function of the decision list)
     steps = []
@@ -207,6 +254,8 @@ def replay(doc, orch):
 
 
 def minimise_doc(doc, orch, max_evals=40):
+    if doc.get("kind") == "K":
+        return doc, {"minimised": False, "reason": "function-level sessions are already small (2-8 actors, ~50 events each)"}
     """session-level minimisation: fewer actors, then a shorter recorded schedule (picks beyond a prefix fall back to
     'lowest slot first'), keeping a step only while the same clause and symptom reproduce"""
     import copy
